@@ -123,51 +123,74 @@ def dictLookup (keys vals : List Expr) (k : Const) : Option Expr :=
 
 /-! ### simplify_chained_calls -/
 
+/-- `First(seq, …)`: `some (some seq)`; `First()`: `some none`; anything else: `none` -/
+def firstArg? : Expr → Option (Option Expr)
+  | .call (.name n) args _ _ => if n = "First" then (match args with | first :: _ => some (some first) | [] => some Option.none) else Option.none
+  | _ => Option.none
+
+/-- a call of a function by name: its name and positional arguments -/
+def opCall? : Expr → Option (String × List Expr)
+  | .call (.name n) pargs _ _ => some (n, pargs)
+  | _ => Option.none
+
+def isLam : Expr → Bool
+  | .lam _ _ => true
+  | _ => false
+
+/-!
+  The visitor.  Written with flat matches (`firstArg?`, `opCall?`, `isLam`) so that the checked model
+  (Model/SimplifyCk.lean) is this text plus its guards, clause for clause (theorem `simpCk_refines_simp`).
+  Comments name the Python method each clause follows.
+-/
 mutual
 def simp : Nat → SStack → Nat → Expr → Except Err (Expr × Nat)
   | 0, _, _, _ => .error .fuel
   | fuel + 1, st, c, e =>
     match e with
+    -- visit_Name: a name on the argument stack is replaced by its value
     | .name x => .ok ((stackLookup x st).getD (.name x), c)
     | .const k => .ok (.const k, c)
-    | .lam ps b =>
-      -- visit_Lambda: fresh parameter names, then generic_visit
+    -- visit_Lambda: fresh parameter names, then generic_visit
+    | .lam ps b => do
       let (ps', b', c1) := makeArgsUnique ps b c
-      do let (b'', c2) ← simp fuel st c1 b'
-         pure (.lam ps' b'', c2)
+      let (b'', c2) ← simp fuel st c1 b'
+      pure (.lam ps' b'', c2)
+    -- visit_Attribute: First(seq).a -> First(Select(seq, x: x.a)); dictionary fields; the same once more if the
+    -- value turns into a First by being visited
     | .attr v a =>
-      match v with
-      | .call (.name "First") (first :: _) _ _ =>
-        -- visit_Attribute_Of_First
+      match firstArg? v with
+      | some (some first) =>
         let x := argName c
         let select := makeSelect first (.lam [x] (.attr (.name x) a))
         simp fuel st (c + 1) (fcall "First" [select])
-      | .call (.name "First") [] _ _ => .error (.internal "IndexError")
-      | _ => do
+      | some Option.none => .error (.internal "IndexError")
+      | Option.none => do
         let (v', c1) ← simp fuel st c v
         match v' with
         | .dict ks vs =>
           match dictLookup ks vs (.str a) with
           | some r => pure (r, c1)
           | Option.none => pure (.attr v' a, c1)
-        | .call (.name "First") (first :: _) _ _ =>
-          -- the value became a First only now (a substituted argument): visit_Attribute_Of_First
-          let x := argName c1
-          let select := makeSelect first (.lam [x] (.attr (.name x) a))
-          simp fuel st (c1 + 1) (fcall "First" [select])
-        | .call (.name "First") [] _ _ => .error (.internal "IndexError")
-        | _ => pure (.attr v' a, c1)
+        | _ =>
+          match firstArg? v' with
+          | some (some first) =>
+            let x := argName c1
+            let select := makeSelect first (.lam [x] (.attr (.name x) a))
+            simp fuel st (c1 + 1) (fcall "First" [select])
+          | some Option.none => .error (.internal "IndexError")
+          | Option.none => pure (.attr v' a, c1)
+    -- visit_Subscript: constant selectors take literals apart; First(seq)[s] -> First(Select(seq, x: x[s]))
     | .sub v s => do
       let (v', c1) ← simp fuel st c v
       let (s', c2) ← simp fuel st c1 s
       let generic : Except Err (Expr × Nat) :=
-        match v' with
-        | .call (.name "First") (first :: _) _ _ =>
+        match firstArg? v' with
+        | some (some first) =>
           let x := argName c2
           let select := makeSelect first (.lam [x] (.sub (.name x) s'))
           simp fuel st (c2 + 1) (fcall "First" [select])
-        | .call (.name "First") [] _ _ => .error (.internal "IndexError")
-        | _ => .ok (.sub v' s', c2)
+        | some Option.none => .error (.internal "IndexError")
+        | Option.none => .ok (.sub v' s', c2)
       match s' with
       | .const (.int n) =>
         (match v' with
@@ -209,55 +232,52 @@ def simp : Nat → SStack → Nat → Expr → Except Err (Expr × Nat)
       let (i', c3) ← simp fuel st c2 i
       let (ifs', c4) ← simpL fuel st c3 ifs
       pure (.comp kind el' t' i' ifs' a, c4)
+    -- visit_Call: called lambdas are inlined through the argument stack; First(seq).m(args) moves the call inside;
+    -- Select / SelectMany / Where go to their call_X; everything else is generic_visit (a method head `v.m` is
+    -- visited as an attribute but never taken out of a First)
     | .call f args kwn kwv =>
+      let generic (head : Except Err (Expr × Nat)) : Except Err (Expr × Nat) := do
+        let (f', c1) ← head
+        let (as', c2) ← simpL fuel st c1 args
+        let (ks', c3) ← simpL fuel st c2 kwv
+        pure (.call f' as' kwn ks', c3)
       match f with
       | .lam ps body =>
-        -- called lambda: bind positionally, then by keyword; otherwise leave it (generic_visit)
         let npos := args.length
-        if !distinctS ps || npos > ps.length || !distinctS kwn || !sameSet kwn (ps.drop npos) then do
-          let (f', c1) ← simp fuel st c (.lam ps body)
+        if !distinctS ps || npos > ps.length || !distinctS kwn || !sameSet kwn (ps.drop npos) then generic (simp fuel st c f)
+        else do
+          let (ps', body', c1) := makeArgsUnique ps body c
           let (as', c2) ← simpL fuel st c1 args
           let (ks', c3) ← simpL fuel st c2 kwv
-          pure (.call f' as' kwn ks', c3)
-        else
-          let (ps', body', c1) := makeArgsUnique ps body c
-          do
-            let (as', c2) ← simpL fuel st c1 args
-            let (ks', c3) ← simpL fuel st c2 kwv
-            let ren := ps.zip ps'
-            let frame : SFrame :=
-              ((ps'.take npos).zip as') ++ (kwn.zip ks').map (fun p => ((renGet p.1 ren).getD p.1, p.2))
-            simp fuel (frame :: st) c3 body'
-      | .attr (.call (.name "First") fargs _ _) m =>
-        -- select_method_call_on_first
-        match fargs with
-        | seq :: _ =>
+          let ren := ps.zip ps'
+          let frame : SFrame :=
+            ((ps'.take npos).zip as') ++ (kwn.zip ks').map (fun p => ((renGet p.1 ren).getD p.1, p.2))
+          simp fuel (frame :: st) c3 body'
+      | .attr v m =>
+        match firstArg? v with
+        | some (some seq) =>
           let x := argName c
           let call := Expr.call (.attr (.name x) m) args kwn kwv
           let select := makeSelect seq (.lam [x] call)
           simp fuel st (c + 1) (fcall "First" [select])
-        | [] => .error (.internal "IndexError")
-      | .attr v m => do
-        -- a method call: `v.m` is visited as an attribute (dictionary fields are resolved) but is not a value to
-        -- be taken out of a First (`_method_head`)
-        let (v', c1) ← simp fuel st c v
-        let f' := match v' with
-          | .dict ks vs =>
-            (match dictLookup ks vs (.str m) with
-             | some r => r
-             | Option.none => .attr v' m)
-          | _ => .attr v' m
-        let (as', c2) ← simpL fuel st c1 args
-        let (ks', c3) ← simpL fuel st c2 kwv
-        pure (.call f' as' kwn ks', c3)
-      | .name "Select" => callSelect fuel st c args kwn kwv
-      | .name "SelectMany" => callSelectMany fuel st c args kwn kwv
-      | .name "Where" => callWhere fuel st c args kwn kwv
-      | _ => do
-        let (f', c1) ← simp fuel st c f
-        let (as', c2) ← simpL fuel st c1 args
-        let (ks', c3) ← simpL fuel st c2 kwv
-        pure (.call f' as' kwn ks', c3)
+        | some Option.none => .error (.internal "IndexError")
+        | Option.none =>
+          -- a method head: visited as an attribute (dictionary fields are resolved), never taken out of a First
+          let head : Except Err (Expr × Nat) := do
+            let (v', c1) ← simp fuel st c v
+            match v' with
+            | .dict ks vs =>
+              match dictLookup ks vs (.str m) with
+              | some r => pure (r, c1)
+              | Option.none => pure (.attr v' m, c1)
+            | _ => pure (.attr v' m, c1)
+          generic head
+      | .name n =>
+        if n = "Select" then callSelect fuel st c args kwn kwv
+        else if n = "SelectMany" then callSelectMany fuel st c args kwn kwv
+        else if n = "Where" then callWhere fuel st c args kwn kwv
+        else generic (simp fuel st c f)
+      | _ => generic (simp fuel st c f)
 def simpL : Nat → SStack → Nat → List Expr → Except Err (List Expr × Nat)
   | 0, _, _, _ => .error .fuel
   | _ + 1, _, c, [] => .ok ([], c)
@@ -265,111 +285,107 @@ def simpL : Nat → SStack → Nat → List Expr → Except Err (List Expr × Na
     let (e', c1) ← simp fuel st c e
     let (es', c2) ← simpL fuel st c1 es
     pure (e' :: es', c2)
-/-- `call_Select(node, args)`; keywords of the node are dropped (the result is rebuilt with function_call) -/
 def callSelect : Nat → SStack → Nat → List Expr → List String → List Expr → Except Err (Expr × Nat)
   | 0, _, _, _, _, _ => .error .fuel
   | fuel + 1, st, c, args, _, _ =>
     match args with
     | source :: transform :: _ =>
-      match transform with
-      | .lam _ _ => do
+      if !isLam transform then .error (.internal "AssertionError") else do
         let (parent, c1) ← simp fuel st c source
-        match parent with
-        | .call (.name "Select") pargs _ _ =>
-          (match pargs with
-           | src :: f :: _ =>
-             (match f with
-              | .lam _ _ => do
-                let (conv, c2) ← convolute transform f c1
-                let (sel, c3) ← simp fuel st c2 conv
-                pure (makeSelect src sel, c3)
-              | _ => .error (.internal "AssertionError"))
-           | _ => .error (.internal "IndexError"))
-        | .call (.name "SelectMany") pargs _ _ =>
-          (match pargs with
-           | src :: f :: _ =>
-             (match f with
-              | .lam fps fb => simp fuel st c1 (fcall "SelectMany" [src, .lam fps (makeSelect fb transform)])
-              | _ => .error (.internal "AssertionError"))
-           | _ => .error (.internal "IndexError"))
-        | _ => do
+        let dflt : Except Err (Expr × Nat) := do
           let (sel, c2) ← simp fuel st c1 transform
           pure (makeSelect parent sel, c2)
-      | _ => .error (.internal "AssertionError")
+        match opCall? parent with
+        | some (n, pargs) =>
+          if n = "Select" then
+            (match pargs with
+             | src :: f :: _ =>
+               if !isLam f then .error (.internal "AssertionError") else do
+                 let (conv, c2) ← convolute transform f c1
+                 let (sel, c3) ← simp fuel st c2 conv
+                 pure (makeSelect src sel, c3)
+             | _ => .error (.internal "IndexError"))
+          else if n = "SelectMany" then
+            (match pargs with
+             | src :: f :: _ =>
+               (match f with
+                | .lam fps fb =>
+                  simp fuel st c1 (fcall "SelectMany" [src, .lam fps (makeSelect fb transform)])
+                | _ => .error (.internal "AssertionError"))
+             | _ => .error (.internal "IndexError"))
+          else dflt
+        | Option.none => dflt
     | _ => .error (.internal "IndexError")
 def callSelectMany : Nat → SStack → Nat → List Expr → List String → List Expr → Except Err (Expr × Nat)
   | 0, _, _, _, _, _ => .error .fuel
   | fuel + 1, st, c, args, _, _ =>
     match args with
     | source :: selection :: _ =>
-      match selection with
-      | .lam _ _ => do
+      if !isLam selection then .error (.internal "AssertionError") else do
         let (parent, c1) ← simp fuel st c source
-        match parent with
-        | .call (.name "SelectMany") pargs _ _ =>
-          (match pargs with
-           | [seq, f] =>
-             (match f with
-              | .lam (p :: _) fb =>
-                simp fuel st c1 (fcall "SelectMany" [seq, .lam [p] (fcall "SelectMany" [fb, selection])])
-              | .lam [] _ => .error (.internal "IndexError")
-              | _ => .error (.internal "AssertionError"))
-           | _ => .error (.internal "AssertionError"))
-        | .call (.name "Select") pargs _ _ =>
-          (match pargs with
-           | [seq, f] =>
-             (match f with
-              | .lam _ _ => do
-                let (conv, c2) ← convolute selection f c1
-                let (sel, c3) ← simp fuel st c2 conv
-                pure (fcall "SelectMany" [seq, sel], c3)
-              | _ => .error (.internal "AssertionError"))
-           | _ => .error (.internal "AssertionError"))
-        | _ => do
+        let dflt : Except Err (Expr × Nat) := do
           let (sel, c2) ← simp fuel st c1 selection
           pure (fcall "SelectMany" [parent, sel], c2)
-      | _ => .error (.internal "AssertionError")
+        match opCall? parent with
+        | some (n, pargs) =>
+          if n = "SelectMany" then
+            (match pargs with
+             | [seq, f] =>
+               (match f with
+                | .lam (p :: _) fb =>
+                  simp fuel st c1 (fcall "SelectMany" [seq, .lam [p] (fcall "SelectMany" [fb, selection])])
+                | .lam [] _ => .error (.internal "IndexError")
+                | _ => .error (.internal "AssertionError"))
+             | _ => .error (.internal "AssertionError"))
+          else if n = "Select" then
+            (match pargs with
+             | [seq, f] =>
+               if !isLam f then .error (.internal "AssertionError") else do
+                 let (conv, c2) ← convolute selection f c1
+                 let (sel, c3) ← simp fuel st c2 conv
+                 pure (fcall "SelectMany" [seq, sel], c3)
+             | _ => .error (.internal "AssertionError"))
+          else dflt
+        | Option.none => dflt
     | _ => .error (.internal "IndexError")
 def callWhere : Nat → SStack → Nat → List Expr → List String → List Expr → Except Err (Expr × Nat)
   | 0, _, _, _, _, _ => .error .fuel
   | fuel + 1, st, c, args, _, _ =>
     match args with
     | source :: filter :: _ =>
-      match filter with
-      | .lam _ _ => do
+      if !isLam filter then .error (.internal "AssertionError") else do
         let (parent, c1) ← simp fuel st c source
-        match parent with
-        | .call (.name "Where") pargs _ _ =>
-          (match pargs with
-           | src :: f :: _ =>
-             (match f with
-              | .lam _ _ =>
-                let x := argName c1
-                let conv := Expr.lam [x] (.op .boolAnd [.call f [.name x] [] [], .call filter [.name x] [] []])
-                simp fuel st (c1 + 1) (fcall "Where" [src, conv])
-              | _ => .error (.internal "AssertionError"))
-           | _ => .error (.internal "IndexError"))
-        | .call (.name "Select") pargs _ _ =>
-          (match pargs with
-           | src :: f :: _ =>
-             (match f with
-              | .lam _ _ => do
-                let (conv, c2) ← convolute filter f c1
-                let (w, c3) ← simp fuel st c2 conv
-                simp fuel st c3 (makeSelect (fcall "Where" [src, w]) f)
-              | _ => .error (.internal "AssertionError"))
-           | _ => .error (.internal "IndexError"))
-        | .call (.name "SelectMany") pargs _ _ =>
-          (match pargs with
-           | seq :: f :: _ =>
-             (match f with
-              | .lam fps fb => simp fuel st c1 (fcall "SelectMany" [seq, .lam fps (fcall "Where" [fb, filter])])
-              | _ => .error (.internal "AssertionError"))
-           | _ => .error (.internal "IndexError"))
-        | _ => do
+        let dflt : Except Err (Expr × Nat) := do
           let (f', c2) ← simp fuel st c1 filter
           if lambdaIsTrue f' then pure (parent, c2) else pure (fcall "Where" [parent, f'], c2)
-      | _ => .error (.internal "AssertionError")
+        match opCall? parent with
+        | some (n, pargs) =>
+          if n = "Where" then
+            (match pargs with
+             | src :: f :: _ =>
+               if !isLam f then .error (.internal "AssertionError") else
+                 let x := argName c1
+                 let conv := Expr.lam [x] (.op .boolAnd [.call f [.name x] [] [], .call filter [.name x] [] []])
+                 simp fuel st (c1 + 1) (fcall "Where" [src, conv])
+             | _ => .error (.internal "IndexError"))
+          else if n = "Select" then
+            (match pargs with
+             | src :: f :: _ =>
+               if !isLam f then .error (.internal "AssertionError") else do
+                 let (conv, c2) ← convolute filter f c1
+                 let (w, c3) ← simp fuel st c2 conv
+                 simp fuel st c3 (makeSelect (fcall "Where" [src, w]) f)
+             | _ => .error (.internal "IndexError"))
+          else if n = "SelectMany" then
+            (match pargs with
+             | seq :: f :: _ =>
+               (match f with
+                | .lam fps fb =>
+                  simp fuel st c1 (fcall "SelectMany" [seq, .lam fps (fcall "Where" [fb, filter])])
+                | _ => .error (.internal "AssertionError"))
+             | _ => .error (.internal "IndexError"))
+          else dflt
+        | Option.none => dflt
     | _ => .error (.internal "IndexError")
 end
 
